@@ -36,13 +36,13 @@ theorem half_le_of_bits {t f : IntTy} (h : f.bits ≤ t.bits) : f.half ≤ t.hal
 macro "layout2" : tactic => `(tactic|
   (unfold IntTy.finite IntTy.inRange IntTy.emin IntTy.emax IntTy.cmin IntTy.cmax b2i at *))
 
-theorem assignInt_ok {t f : IntTy} {πt πf : Policy} (wt : t.WF πt) (wf : f.WF πf)
+theorem assignInt_tri {t f : IntTy} {πt πf : Policy} (wt : t.WF πt) (wf : f.WF πf)
     (hco : πt.checkOverflow = true) (hg : t.GapOK f) (dir : Dir) {to0 frm : Int}
     (h0 : t.inRange to0) (hfrm : f.finite πf frm) :
-    OK t πt dir (assignInt t πt f πf to0 frm dir) (.fin frm) := by
+    Tri t πt dir to0 (assignInt t πt f πf to0 frm dir) frm := by
   obtain ⟨hpt, hrt⟩ := wt.half_facts
   obtain ⟨hpf, hrf⟩ := wf.half_facts
-  have fin_ok : t.finite πt frm → OK t πt dir (frm, V_EQ) (.fin frm) := fun h => ok_eq wt dir h
+  have fin_ok : t.finite πt frm → Tri t πt dir to0 (frm, V_EQ) frm := fun h => tri_eq h
   -- the width facts, as linear facts about the two `half`s
   have hw : (t.bits = f.bits → t.half = f.half) ∧ (f.bits + 2 ≤ t.bits → 4 * f.half ≤ t.half)
       ∧ (f.bits ≤ t.bits → f.half ≤ t.half) :=
@@ -56,7 +56,7 @@ theorem assignInt_ok {t f : IntTy} {πt πf : Policy} (wt : t.WF πt) (wf : f.WF
     simp only [hco, Bool.true_and, decide_eq_true_eq]
     split
     · split
-      · exact ok_posOverflow wt dir h0 (by omega)
+      · exact tri_pos (by omega)
       · apply fin_ok
         rename_i h1 h2
         have := hfrm.1
@@ -83,12 +83,12 @@ theorem assignInt_ok {t f : IntTy} {πt πf : Policy} (wt : t.WF πt) (wf : f.WF
     unfold assignUnsignedSigned
     simp only [hco, Bool.true_and, decide_eq_true_eq]
     split
-    · apply ok_negOverflow wt dir h0
+    · apply tri_neg
       rename_i h1
       layout2; simp [hst] at *; omega
     · split
       · split
-        · exact ok_posOverflow wt dir h0 (by omega)
+        · exact tri_pos (by omega)
         · apply fin_ok
           rename_i h1 h2 h3
           layout2; simp [hst] at *; omega
@@ -107,7 +107,7 @@ theorem assignInt_ok {t f : IntTy} {πt πf : Policy} (wt : t.WF πt) (wf : f.WF
     have e1 := hfrm.1; have e2 := hfrm.2
     split
     · split
-      · exact ok_posOverflow wt dir h0 (by omega)
+      · exact tri_pos (by omega)
       · apply fin_ok
         layout2
         generalize t.half = Ht at *
@@ -127,9 +127,9 @@ theorem assignInt_ok {t f : IntTy} {πt πf : Policy} (wt : t.WF πt) (wf : f.WF
     simp only [hco, Bool.true_and, decide_eq_true_eq]
     split
     · split
-      · exact ok_negOverflow wt dir h0 (by assumption)
+      · exact tri_neg (by assumption)
       · split
-        · exact ok_posOverflow wt dir h0 (by omega)
+        · exact tri_pos (by omega)
         · apply fin_ok
           constructor <;> omega
     · apply fin_ok
